@@ -157,8 +157,9 @@ func c13(c *ctx) {
 	results, err := cp.Run(reqs, corpus.RunOpts{CPUSeconds: 400, WallSeconds: 2400})
 	c.run.Extra["seconds_shipped_run"] = time.Since(t0).Seconds()
 	if cp.WatchdogHits > 0 {
-		c.run.Incon(fmt.Sprintf("%d child processes were stopped by the wall-clock watchdog", cp.WatchdogHits))
+		c.run.Incon(fmt.Sprintf("%d child processes were stopped by the wall-clock watchdog or killed from outside (not by this check's limits)", cp.WatchdogHits))
 	}
+	c.run.Max("peak_child_resident_mb", cp.PeakMB)
 	if err != nil {
 		die("shipped run: %v", err)
 	}
